@@ -9,8 +9,9 @@
 (*   [e |-> "Header", label, carets, merged, bufs, tails]   a run starts;  *)
 (*        carets = "-fno-caret-diagnostics" is not in argv, merged = fd 2   *)
 (*        and fd 1 of the process are the same pipe; bufs / tails = the    *)
-(*        sizes of the run's writes to fd 1 (candidates for the unlogged   *)
-(*        buffer size and the unlogged rest of the dump)                   *)
+(*        sizes of the run's writes to fd 1 and their common divisor       *)
+(*        (candidates for the unlogged buffer size and the unlogged rest   *)
+(*        of the dump)                                                     *)
 (*   [e |-> "W", fd |-> 1 | 2, n |-> bytes]                 one write      *)
 (*   [e |-> "End"]                                          end of the log *)
 (* Every event is bound to an action of ClangStream; BeginDump, EndDump,   *)
@@ -43,7 +44,7 @@ THeader ==
 
 TWrite1 ==
   /\ IsEv("W") /\ E.fd = 1 /\ UNCHANGED <<run, hdr>>
-  /\ \/ FillAndFlush /\ bufsize = E.n
+  /\ \/ E.n % bufsize = 0 /\ FillAndFlush(E.n \div bufsize)
      \/ Exit /\ tail = E.n /\ tail > 0
 
 TWrite2 ==
